@@ -362,7 +362,7 @@ func (t *SynthTransport) RoundTrip(req *http.Request) (*http.Response, error) {
 	path := strings.TrimPrefix(req.URL.Path, "/")
 	var body []byte
 	var ok bool
-	if path == synthKeyName {
+	if path == synthKeyName || path == "keys/"+synthKeyName {
 		body, ok = t.Repo.KeyPEM, true
 	} else {
 		body, ok = t.Repo.Files[path]
